@@ -2512,7 +2512,7 @@ func lemmaForwardSession(raw *rawEnvelope) (e *Session, e3 *Session, accepted bo
 //@   ensures t.conn == conn
 
 //@ func (*tcpTransport).Receive
-//@   props C01 C12 C16
+//@   props C01 C09 C12 C16
 //@   requires tcpInv(t)
 //@   panics only-if ctx == nil
 //@   modifies t.eof, t.limitedReader.N, t.limitedReader.consumed, t.ctxConn.readCtx, t.ctxConn.readCancel
@@ -2521,15 +2521,17 @@ func lemmaForwardSession(raw *rawEnvelope) (e *Session, e3 *Session, accepted bo
 //@   ensures [C16] @rearmed result1 == nil ==> t.limitedReader.N == t.ReadLimit
 //@   ensures [C16] @neverenlarged result1 != nil ==> t.limitedReader.N <= old(t.limitedReader.N) || t.limitedReader.N == t.ReadLimit
 //@   ensures [C12] @kinds result1 == nil ==> result0 != nil && !payloadnil(result0) && isKind(result0)
+//@   ensures [C09,C12] @stillopen result1 == nil ==> t.conn != nil && !t.eof  ## Transport model: a successful Receive leaves the transport connected
 //@   ensures tcpInv(t)
 
 //@ func (*tcpTransport).Send
-//@   props C04 C12
+//@   props C04 C09 C12
 //@   requires t != nil && (t.conn != nil && !t.eof ==> t.encoder != nil && t.ctxConn != nil)
 //@   panics only-if ctx == nil || e == nil || payloadnil(e)
 //@   modifies t.eof, t.ctxConn.writeCtx, t.ctxConn.writeCancel
 //@   oncall [C04] (*encoding/json.Encoder).Encode : a_v == e
 //@   ensures [C12] @notopen old(t.conn == nil || t.eof) ==> result != nil
+//@   ensures [C09,C12] @stillopen result == nil ==> t.conn != nil && !t.eof  ## Transport model: a successful Send leaves the transport connected
 
 //@ func (*tcpTransport).Encryption
 //@   props C09 C10
@@ -2554,6 +2556,48 @@ func lemmaForwardSession(raw *rawEnvelope) (e *Session, e3 *Session, accepted bo
 //@   ensures [C09] @nodowngrade old(t.encryption) == SessionEncryptionTLS && e != SessionEncryptionTLS ==> result != nil
 //@   ensures [C16] @rearmed result == nil && e != old(t.encryption) ==> tcpInv(t) && t.limitedReader.N == t.ReadLimit
 //@   ensures t.conn != nil && !t.eof
+
+// The constructors: every TCP transport handed to a channel starts with the
+// read budget armed (C16) and in cleartext (C09/C10 start from "none").
+//@ struct tcpTransportListener
+//@   chaninv connChan : v != nil
+
+//@ spec fn tcpNew(t *tcpTransport, limit int64) bool = tcpInv(t) && t.limitedReader.N == t.ReadLimit && t.ReadLimit == ite(limit == 0, DefaultReadLimit, limit) && t.encryption == SessionEncryptionNone && !t.eof
+//@ globalinv defaultTCPConfig.ReadLimit == 0
+
+//@ func (*tcpTransportListener).ensureStarted
+//@   props C16
+//@   requires l != nil
+//@   modifies nothing
+//@   ensures (result == nil) == (l.listener != nil)
+
+//@ func (*tcpTransportListener).Accept
+//@   props C09 C16
+//@   requires l != nil && ctx != nil && l.ReadLimit >= 0
+//@   modifies nothing
+//@   ensures [C16] @armed result1 == nil ==> istype(result0, *tcpTransport) && tcpNew(result0.(*tcpTransport), l.ReadLimit)
+//@   ensures [C09] @serverside result1 == nil ==> result0.(*tcpTransport).server
+//@   ensures result1 != nil ==> result0 == nil
+
+//@ func (*tcpTransportListener).serve
+//@   props C16
+//@   requires l != nil && listener != nil && l.connChan != nil && l.done != nil && !closed(l.connChan)
+//@   modifies closed(l.connChan)
+//@   loop 0 invariant l.connChan != nil && l.done != nil && listener != nil && !closed(l.connChan) && l.connChan == old(l.connChan)
+
+//@ func (*tcpTransportListener).Listen
+//@   props C16
+//@   requires l != nil && ctx != nil && addr != nil && l.ConnBuffer >= 0
+//@   modifies l.listener, l.done, l.connChan
+//@   ensures result == nil ==> l.listener != nil && l.connChan != nil && l.done != nil
+
+//@ func DialTcp
+//@   props C09 C16
+//@   requires ctx != nil && addr != nil && (config != nil ==> config.ReadLimit >= 0)
+//@   modifies nothing
+//@   ensures [C16] @armed result1 == nil ==> istype(result0, *tcpTransport) && tcpNew(result0.(*tcpTransport), ite(config == nil, 0, config.ReadLimit))
+//@   ensures [C09] @clientside result1 == nil ==> !result0.(*tcpTransport).server
+//@   ensures result1 != nil ==> result0 == nil
 
 //@ func (*tcpTransport).Close
 //@   props C12
@@ -2591,6 +2635,7 @@ func lemmaForwardSession(raw *rawEnvelope) (e *Session, e3 *Session, accepted bo
 //@   checks [C04] @handedoveronce result == nil ==> nsent(inProcessTransport.envChan) == 1 && lastsent(inProcessTransport.envChan) == e && sentch(inProcessTransport.envChan) == t.remote.envChan  ## into the peer's queue, not its own
 //@   checks [C04] @refusedmeansnothing result != nil ==> nsent(inProcessTransport.envChan) == 0
 //@   ensures [C04] @closedrefuses t.closed ==> result != nil
+//@   ensures [C04] @stillopen result == nil ==> !t.closed
 
 //@ func (*inProcessTransport).Receive
 //@   props C04 C14
@@ -2600,6 +2645,7 @@ func lemmaForwardSession(raw *rawEnvelope) (e *Session, e3 *Session, accepted bo
 //@   checks [C04] @neverdrops result1 != nil ==> nrecv(inProcessTransport.envChan) == 0
 //@   ensures [C04] @kinds result1 == nil ==> result0 != nil && !payloadnil(result0) && isKind(result0)
 //@   ensures [C14] @closedrefuses t.closed ==> result1 != nil
+//@   ensures [C04] @stillopen result1 == nil ==> !t.closed
 
 //@ func (*inProcessTransport).Close
 //@   props C14
